@@ -100,8 +100,6 @@ def derive_variant(rng, spec, how):
         pool = {"pair": mg.PAIR_TARGETS, "eam": mg.EAM_TARGETS, "fs": mg.FS_TARGETS, "adp": mg.ADP_TARGETS + mg.EAM_TARGETS}[kind]
         t = rng.choice([x for x in pool if x != s["meta"]["target"]] or pool)
         s = mg.retarget(s, t)
-        if t != "eam_adp":
-            pass
         return s
     if how == "same-names-other-formulas":
         pf = mg.get_section(s, "Potential-Form")
@@ -211,11 +209,6 @@ def _perturb_numbers(rng, d):
         else:
             out.append(t)
     return " ".join(out)
-
-
-def functions_of(spec):
-    """Names of the evaluable functions of a model as the harness addresses them (after build)."""
-    return None
 
 
 def gen_scenario(seed, tier="quick"):
@@ -512,8 +505,6 @@ def execute_reference(arg):
         sim.begin_op(1)
         out["write"] = _write(tab, spec, sim, "simfile", "ref", clock_start)
         out["n_evals"] = sim.current.op_evals
-        if spec["meta"]["binary"] and "sha" in out["write"]:
-            pass
     finally:
         clock.uninstall()
     return out
@@ -966,8 +957,6 @@ def _probes(sc, refs, res, extra, bump):
         bump("probe:burst-of-evaluations-on-one-multi-range-function")
     if "same-names-other-formulas" in sc.get("model_tags", []):
         bump("probe:same-form-name-different-formula-in-pool")
-    if len(sc["tasks"]) == 1 and False:
-        pass
     # evaluation of a handle's function between two rows of a write of the same handle by another task
     if res.get("switches_in_write") and any(len(u) > 1 for u in users.values()):
         bump("probe:eval-between-rows-of-own-write")
